@@ -65,9 +65,10 @@ def parse_sidecar(path):
     for ln, raw in enumerate(open(path).read().split("\n"), 1):
         line = raw.rstrip()
         s = line.strip()
-        if cur_site is not None and not (s.startswith("@") or s.startswith("item ") or s.startswith("use_item ") or s.startswith("fn ")
-                                         or s in ("keep_attrs", "selfmut", "literals") or s.startswith("result ")
-                                         or s.startswith("refpat ")):
+        is_directive = (s.startswith("@") or s.startswith("item ") or s.startswith("use_item ")
+                        or s in ("keep_attrs", "selfmut", "literals")
+                        or re.match(r"(fn|result|refpat) \w+$", s) is not None)
+        if cur_site is not None and not is_directive:
             cur_site.append(raw)
             continue
         if not s or s.startswith("#"):
